@@ -303,6 +303,6 @@ func lastOpsKey(trace []string) string {
 	return strings.Join(ks, "+")
 }
 
-var propOps = h.NewProp("TestPropRGSWOps", h.Budget{Quick: 800, Thorough: 6000}, genOps, runOps)
+var propOps = h.NewProp("TestPropRGSWOps", h.Budget{Quick: 600, Thorough: 6000}, genOps, runOps)
 
 func TestPropRGSWOps(t *testing.T) { propOps.Check(t) }
